@@ -188,11 +188,18 @@ class VariablesCollector(ValidationVisitor):
             )
 
     def _flatten_fragments(self):
-        for parent, children in self._fragment_fragments.items():
-            for child in deduplicate(children):
-                for op in self._op_fragments.keys():
-                    if parent in self._op_fragments[op]:
-                        self._op_fragments[op].append(child)
+        # Transitive closure, independent of the order of the definitions.
+        for op in self._op_fragments.keys():
+            fragments = self._op_fragments[op]
+            seen = set(fragments)
+            index = 0
+            while index < len(fragments):
+                children = self._fragment_fragments.get(fragments[index], [])
+                for child in deduplicate(children):
+                    if child not in seen:
+                        seen.add(child)
+                        fragments.append(child)
+                index += 1
 
     def leave_document(self, _):
         self._flatten_fragments()
